@@ -231,10 +231,58 @@ def native_script(desc, sgen_in, ctag_in):
     return res
 
 
+def content_sequence_replay(ck, P, sc, m, key_, what, ctag_in):
+    """for programs that look inside the record: the publications' contents chosen by the solver are published one after the
+    other by the real writer; the real reader snapshots after the publication the model's reader had cached and after the last
+    one (writer idle).  C02/C03: it must then hold exactly the last publication."""
+    D = z3.Function('rec_data', z3.IntSort(), z3.IntSort(), z3.IntSort())
+    H = z3.Function('rec_data_half', z3.IntSort(), z3.IntSort(), z3.IntSort(), z3.IntSort())
+    ev = lambda x: m.eval(x, model_completion=True).as_long()
+    N = sc.npub
+    ct = mval(m, ctag_in) if ctag_in is not None else T_DEFAULT
+    tags = ([ct] if ct not in (T_DEFAULT, None) and ct < 0 else []) + list(range(0 if (ct is not None and ct >= 0) or ct in (T_DEFAULT, None) else 0, N + 1))
+    tags = [t for i, t in enumerate(tags) if t not in tags[:i]]
+
+    def content(t):
+        w = [ev(D(z3.IntVal(i), z3.IntVal(t))) for i in range(5)]
+        w[1] = w[1] % (10 ** 9); w[3] = w[3] % (10 ** 9)
+        w = [max(-2 ** 62, min(2 ** 62, x)) for x in w]
+        return w + [abs(ev(H(z3.IntVal(5), z3.IntVal(0), z3.IntVal(t)))) % 2 ** 32, abs(ev(H(z3.IntVal(6), z3.IntVal(0), z3.IntVal(t)))) % 3]
+    recs = [content(t) for t in tags]
+    rp = common.Replay('debug')
+    res = None
+    for variant in ('cached-then-last', 'after-every-publication'):
+        toks = []
+        for i, (t, c) in enumerate(zip(tags, recs)):
+            snap = 1 if (variant == 'after-every-publication' or i == len(tags) - 1 or t == ct or (ct in (T_DEFAULT, None) and False)) else 0
+            toks.append(','.join(map(str, c + [snap])))
+        out = rp.ask('seq_publish ' + ' '.join(toks))
+        if not out.startswith('ok'):
+            continue
+        snaps = [x for x in out.split()[1:] if x.startswith('snap')]
+        if not snaps:
+            continue
+        last = snaps[-1].split('=', 1)[1]
+        want = ','.join(map(str, recs[-1]))
+        if last != want:
+            res = {'cmd': 'seq_publish ' + ' '.join(toks), 'out': out, 'variant': variant, 'tags': tags}
+            ck.violation(key_, '%s; natively: the real writer published %d records one after the other (contents chosen by the solver, as_of of the last one = %s, of the one before = %s) and the real reader, asked after the last publication with the writer idle, returned %s instead of %s'
+                         % (what, len(recs), recs[-1][:2], recs[-2][:2] if len(recs) > 1 else None, last, want), {'cmd': res['cmd'], 'native_scripted_replay': res, 'native': out})
+            break
+    rp.close()
+    return res is not None
+
+
 def confirm_w_model(ck, P, sc, m, calls, key_, what, sgen_in=None, ctag_in=None, judge=None):
     """a W model is reported only if (1) an independent checker accepts the execution as RC11-consistent for the
     extracted event lists and (2) the concrete re-execution of snapshot()'s MIR on the scripted observations
     produces the bad result."""
+    if P.content_dependent():
+        # the reader/writer code inspects the record: the tag scripts cannot carry the contents the solver chose
+        if content_sequence_replay(ck, P, sc, m, key_, what, ctag_in):
+            return True
+        ck.inconclusive.append('the code inspects the record content; the model (%s) did not reproduce in the native sequential scenario' % what[:120])
+        return False
     desc = describe_model(sc, m, calls)
     desc['floors'] = {str(k): mval(m, v) for k, v in sc.enc.floors.items()}
     probs = rc11_consistent(desc)
@@ -650,8 +698,7 @@ def check_c11(tier, seed):
         return ck.finish()
     ck.absorb(pr)
     if P.writer_private_state:
-        ck.inconclusive.append('third-party-reader scenarios not built: the writer keeps private state across calls (%s)' % P.writer_private_state)
-        return ck.finish()
+        ck.cov['writer_private_state'] = P.writer_private_state
     # (2) as seen by a conforming third-party reader (acquire loads / acquire fence), under RC11:
     #     whoever observes any word of publication k and then (after an acquire fence) the generation, sees the odd
     #     in-flight value or a later one; whoever acquire-reads the final value sees the complete record.
@@ -721,9 +768,75 @@ def check_c11(tier, seed):
 
 
 # ----------------------------------------------------------------------------------- C18
+def c18_loop_by_loop(ck, P, tier, seed):
+    """snapshot() with more than one loop: every loop needs its own termination argument (a loop-carried integer that each way
+    round strictly decreases and that is bounded below).  A loop without one is run natively against a writer that stopped for
+    ever (odd generation from the start / from the second load on) and against a writer that never stops."""
+    from mirsym.seqlock import loops_of
+    ex = P.snap_ex
+    loops = loops_of(ex, P.snap_fn, [Ref(0, 'r')], P.snap_state0.fork())
+    pr = Prover(seed); pr.add(ex.side)
+    T = z3.BoolVal(True)
+    unranked = []
+    for lp in loops:
+        back = [o for o in lp['outs'] if o.kind == 'stop' and o.at == lp['head']]
+        rank = None
+        for l, (var, ty) in lp['carried'].items():
+            if ty == 'bool':
+                continue
+            ok = bool(back)
+            for o in back:
+                sv = z3.Solver(); sv.set('timeout', 20000); sv.add(ex.side)
+                nv = o.state.mem.get((lp['frame'], l))
+                if nv is None or not isinstance(nv, z3.ExprRef):
+                    ok = False; break
+                sv.add(o.state.pcond(), z3.Not(z3.And(nv <= var - 1, var >= 1)))
+                if sv.check() != z3.unsat:
+                    ok = False; break
+            if ok:
+                rank = l; break
+        kinds = sorted({e.kind for o in lp['outs'] for e in o.state.trace})
+        if not back:
+            pr.prove('loop at %s: no path returns to its head (not a loop for the extracted paths)' % lp['head'], T, T, need_reach=False)
+        elif rank is not None:
+            pr.prove('loop at %s: %s is decreased by every way round and positive at the head (events per round: %s)' % (lp['head'], rank, kinds), T, T, need_reach=False)
+        else:
+            pr.prove('loop at %s: a loop-carried integer is strictly decreased by every way round and bounded below (events per round: %s)' % (lp['head'], kinds), T, z3.BoolVal(False), need_reach=False)
+            unranked.append(lp['head'])
+    ck.cov['loops_of_snapshot'] = [{'head': lp['head'], 'carried': sorted(lp['carried']), 'ways_round': len([o for o in lp['outs'] if o.kind == 'stop' and o.at == lp['head']])} for lp in loops]
+    if unranked:
+        rp = common.Replay('release')
+        outs = {}
+        for cmd in ('snapshot_stall_odd 3000', 'snapshot_stall 3000'):
+            outs[cmd] = rp.ask(cmd)
+            rp.close(); rp = common.Replay('release')
+            if outs[cmd].startswith('timeout'):
+                ck.violation('no-ranking-function', 'snapshot() has a loop (at %s) without a bound on its rounds, and the real function did not return against a writer stalled mid-update: %s' % (unranked[0], outs[cmd]),
+                             {'cmd': cmd.split()[0], 'native': outs[cmd]})
+                break
+        else:
+            out2 = rp.ask('snapshot_busy 2500000')
+            f = dict(x.split('=', 1) for x in out2.split()[1:] if '=' in x) if out2.startswith('ok') else {}
+            if f and int(f.get('writer_updates', 0)) >= 2500000:
+                ck.violation('no-ranking-function', 'against a continuously updating writer one snapshot() call performed %s generation loads and returned only because the writer stopped after %s updates: its work is not bounded'
+                             % (f.get('generation_loads'), f.get('writer_updates')), {'cmd': 'snapshot_busy 2500000', 'native': out2})
+            else:
+                ck.inconclusive.append('no ranking function for the loop at %s of snapshot(), and the native scenarios returned (%s; busy writer: %s)' % (unranked[0], outs, out2))
+        rp.close()
+        pr.handled = {n for n, m in pr.failed} if ck.violations else set()
+    ck.absorb(pr)
+    if not unranked:
+        ck.inconclusive.append('snapshot() has %d loops, each with its own bound; the stalled-writer scenarios of this check are built for a single retry loop and were not run' % len(loops))
+    ck.cov['bounds'] = {'loops': 'each loop of snapshot() on its own (one round from its head over symbolic loop-carried locals)'}
+    return ck.finish()
+
+
 def check_c18(tier, seed):
     ck = Check('C18', tier, seed)
-    P = Programs()
+    P = Programs(tolerate_reader_loops=True)
+    if P.snap is None:
+        ck.cov['functions_encoded'] = ['ShmReader::snapshot (loop by loop)', 'ShmReader::new']
+        return c18_loop_by_loop(ck, P, tier, seed)
     base_cov(ck, P)
     S = P.snap
     pr = Prover(seed); pr.add(P.side())
